@@ -279,9 +279,10 @@ func (vc *FuncVC) step(st *State, fr *Frame, instr ssa.Instruction) []*State {
 		fr.env[in] = vc.binop(st, fr, in)
 	case *ssa.Store:
 		a := vc.addrOf(st, fr, in.Addr, in)
+		raw := vc.val(st, fr, in.Val)
 		v := vc.valV(st, fr, in.Val)
 		vc.checkWrite(st, a, in)
-		st.store(a, v)
+		st.storeAny(a, raw, v)
 	case *ssa.ChangeType:
 		v := vc.val(st, fr, in.X)
 		if vv, ok := v.(V); ok {
@@ -317,6 +318,7 @@ func (vc *FuncVC) step(st *State, fr *Frame, instr ssa.Instruction) []*State {
 			c.Bindings = append(c.Bindings, vc.val(st, fr, b))
 		}
 		st.closures[ref.T] = c
+		vc.closureFacts(st, c)
 		fr.env[in] = c
 	case *ssa.MakeMap:
 		mt := in.Type().Underlying().(*types.Map)
@@ -569,6 +571,11 @@ func (vc *FuncVC) unop(st *State, fr *Frame, in *ssa.UnOp) any {
 			panic(abortPath{"sync-copy"})
 		}
 		vc.checkRead(st, a, in)
+		if x, ok := st.loadAny(a); ok {
+			if _, isClosure := x.(*Closure); isClosure {
+				return x
+			}
+		}
 		v := st.load(a)
 		v.GT = in.Type()
 		if v.S == SInt {
@@ -1013,7 +1020,43 @@ func (vc *FuncVC) doReturn(st *State, fr *Frame, in *ssa.Return) []*State {
 		}
 		return nil
 	}
+	if vc.compose != "" && !st.composed {
+		vc.composeStep(st, res)
+		return nil
+	}
 	vc.finish(st, fr, res)
 	st.dead = true
 	return nil
+}
+
+// closureFacts: SMT-level identity of a closure: which function it runs and what it captured.
+func (vc *FuncVC) closureFacts(st *State, c *Closure) {
+	w := vc.w
+	w.declare("closureFn", "(declare-fun closureFn (Int) Int)")
+	st.assume(eq(app("closureFn", c.Ref.T), fmt.Sprint(vc.fnID(c.Fn))))
+	for i, b := range c.Bindings {
+		var v V
+		switch x := b.(type) {
+		case V:
+			v = x
+		case *Closure:
+			v = x.Ref
+		default:
+			continue
+		}
+		name := fmt.Sprintf("closureBind%d_%s", i, sortName(v.S))
+		w.declare(name, fmt.Sprintf("(declare-fun %s (Int) %s)", name, v.S))
+		st.assume(eq(app(name, c.Ref.T), v.T))
+	}
+}
+
+func (vc *FuncVC) fnID(f *ssa.Function) int {
+	// stable id: index in the sorted list of package functions
+	names := vc.eng.funcNames()
+	for i, n := range names {
+		if n == relName(f) {
+			return i + 1
+		}
+	}
+	return 0
 }
